@@ -237,6 +237,12 @@ func randSession(r *rand.Rand, d string, hostile int) (units [][]byte, class str
 			}
 		}
 		class = "1212-for-unannounced-file"
+	case 9: // 0x1211 for a file the 0x1210 did not list, then a chunk of that file and its 0x1212
+		k := 1 + r.Intn(len(units))
+		nm := []byte("not_listed.bin")
+		ins := [][]byte{ctl(0x1211, body1211(nm, 1, 6)), chunkBytes(d, nm, 0, []byte{9, 8, 7}), ctl(0x1212, body1211(nm, 1, 6))}
+		units = append(units[:k:k], append(ins[:1+r.Intn(3)], units[k:]...)...)
+		class = "1211-for-unlisted-file"
 	case 7: // the session starts with 0x1211 / 0x1212: no 0x1210 came first
 		units = append([][]byte{ctl([]int{0x1211, 0x1212}[r.Intn(2)], body1211(files[0].name, 0, len(files[0].content)))}, units...)
 		class = "control-before-1210"
@@ -256,14 +262,14 @@ func init() {
 			d := aDialects[r.Intn(5)]
 			hostile := 0
 			if allowHostile && s%3 != 0 {
-				hostile = 1 + r.Intn(8)
+				hostile = 1 + r.Intn(9)
 			}
 			us, class := randSession(r, d, hostile)
 			units := make([]AUnit, len(us))
 			for i := range us {
 				units[i] = AUnit{Bytes: us[i]}
 			}
-			mode := []string{"unit", "all", "random", "random", "pair", "byte"}[r.Intn(6)]
+			mode := []string{"unit", "all", "random", "random", "pair", "byte", "head", "head"}[r.Intn(8)]
 			if total := func() (n int) {
 				for _, u := range us {
 					n += len(u)
